@@ -40,6 +40,30 @@ fn weighted_d() -> BoxedStrategy<D> {
     .boxed()
 }
 
+/// Before the real formatting calls of a case: format the value once into a sink that fails
+/// after a few bytes (an I/O error in the middle of a write). Whatever happens there - an error
+/// is the expected outcome - must not influence any later formatting on the thread.
+pub fn failing_sink_first(d: &Decimal, h: u64) {
+    struct Failing(usize);
+    impl std::fmt::Write for Failing {
+        fn write_str(&mut self, s: &str) -> std::fmt::Result {
+            if s.len() > self.0 {
+                self.0 = 0;
+                return Err(std::fmt::Error);
+            }
+            self.0 -= s.len();
+            Ok(())
+        }
+    }
+    let budget = (h % 7) as usize;
+    let _ = catch(|| {
+        let mut w = Failing(budget);
+        let _ = std::fmt::Write::write_fmt(&mut w, format_args!("{}", d));
+        let mut w = Failing(budget);
+        let _ = std::fmt::Write::write_fmt(&mut w, format_args!("{:>12.3}", d));
+    });
+}
+
 impl Prop for C07 {
     type Case = Case;
     fn id(&self) -> &'static str {
@@ -85,6 +109,7 @@ impl Prop for C07 {
         let x = case.x;
         let d = x.dec();
         let want = ref_to_string(x.c, x.s);
+        failing_sink_first(&d, engine::case_hash(case));
         if x.s > 0 {
             ctx.label("scale>0");
             ctx.nontrivial();
